@@ -79,6 +79,15 @@ def handle : List Sexp → Option String
   | .atom "KOIDDEC" :: args => do
       let a ← intArgs args
       some (out (GenK.oidDecode a))
+  | .atom "PYSL2" :: .atom i :: .atom j :: args => do
+      let a ← intArgs args
+      some s!"ok{ints (Py.sliceG a (← i.toInt?) (← j.toInt?))}"
+  | .atom "KOCTCHUNK" :: .atom n :: args => do
+      -- the callback of the real run is a stub writing EE, len % 256, chunk
+      let a ← intArgs args
+      some (match GenK.octetChunks (fun c => pure (([238, ((c.length % 256 : Nat) : Int)] : Py.Tup) ++ c)) a (← n.toInt?) with
+        | .ok (sub, c, o) => s!"ok{ints sub} | {c} {o}"
+        | .error e => "err " ++ errName e)
   | .atom "PYSL" :: .atom which :: .atom i :: args => do
       let a ← intArgs args
       let i ← i.toInt?
